@@ -1,4 +1,5 @@
 import Model.C17
+import Model.C17Snap
 /-!
 Oracle handlers for C17.
 
@@ -852,6 +853,70 @@ def handleRace (f : List String) : String × String × String :=
     | _ => ("bad-observation", "-", "-")
   | _ => ("bad-fields", "-", "-")
 
+/-! ### C17.snap — ServicesByState() results kept / written by the caller -/
+
+def snapStates : List SState := [.new, .starting, .running, .stopping, .terminated, .failed]
+
+def snapCode : SState → Char
+  | .new => 'N' | .starting => 'S' | .running => 'R' | .stopping => 'P' | .terminated => 'T' | .failed => 'F'
+
+def snapRenderBy (bs : SState → List Nat) : String :=
+  ";".intercalate (snapStates.map fun s =>
+    let l := bs s
+    if l.isEmpty then "-" else ",".intercalate (l.map toString))
+
+def parseSnapAct (a : String) : SnapAct :=
+  match a.toList with
+  | 'S' :: r => .start ((String.ofList r).toNat?.getD 0)
+  | 'T' :: r => .stop ((String.ofList r).toNat?.getD 0)
+  | 'K' :: _ => .keep
+  | 'A' :: _ => .append
+  | _ => .overwrite
+
+def snapObs (x : SnapSys) : String :=
+  let integ := String.ofList (x.kept.map fun k => if k.2 then 'w' else '1')
+  snapRenderBy x.mgr.byState ++ "~" ++ (if x.mgr.state == .healthy then "1" else "0") ++
+    (if x.mgr.state == .stopped then "1" else "0") ++ "~" ++ String.ofList (x.svc.map snapCode) ++ "~" ++
+    (if integ.isEmpty then "-" else integ)
+
+def snapTokens (s : String) : List Nat :=
+  if s == "-" || s == "" then [] else (s.splitOn ",").map fun t => t.toNat?.getD 999
+
+def judgeSnapObs (o : String) : List String :=
+  match o.splitOn "~" with
+  | lists :: hz :: sts :: integ :: rest =>
+    let ls := lists.splitOn ";"
+    let st := sts.toList
+    let wrong := (List.range snapStates.length).any fun k =>
+      let want := (List.range st.length).filter fun i => st.getD i '?' == snapCode (snapStates.getD k .new)
+      (snapTokens (ls.getD k "-")).mergeSort != want
+    let allRun := st.all (· == 'R')
+    let allTerm := st.all fun c => c == 'T' || c == 'F'
+    (if wrong then ["services-by-state-wrong"] else []) ++
+    (if (hz.toList.getD 0 '0' == '1') != allRun then ["healthy-iff-all-running"] else []) ++
+    (if (hz.toList.getD 1 '0' == '1') != allTerm then ["stopped-iff-all-terminal"] else []) ++
+    (if integ.toList.contains '0' then ["snapshot-changed-by-manager"] else []) ++
+    (if rest.isEmpty then [] else ["harness-flag:stuck"])
+  | _ => ["bad-observation"]
+
+def handleSnap (f : List String) : String × String × String :=
+  match f with
+  | [ns, actsS, obsS] =>
+    let n := ns.toNat?.getD 0
+    let acts := (actsS.splitOn ",").map parseSnapAct
+    let obs := obsS.splitOn "|"
+    let (_, mobs) := acts.foldl (fun (acc : SnapSys × List String) a =>
+      let x := acc.1.step a
+      (x, acc.2 ++ [snapObs x])) (SnapSys.init n, [])
+    let diff := if mobs == obs then "-" else "model=" ++ "|".intercalate mobs
+    let j := (obs.flatMap judgeSnapObs).eraseDups
+    let judge := if j.isEmpty then "-" else ",".intercalate j
+    let keeps := (acts.filter (· == .keep)).length
+    let writes := (acts.filter fun a => a == .append || a == .overwrite).length
+    let started := if acts.any (fun a => match a with | .start _ => true | _ => false) then 1 else 0
+    (diff, judge, s!"k=snap n={n} acts={min acts.length 16} keeps={min keeps 4} writes={min writes 3} started={started}")
+  | _ => ("bad-fields", "-", "-")
+
 def handle (cmd : String) (f : List String) : String × String × String :=
   if cmd == "C17.race" then handleRace f
   else if cmd == "C17.svc" then handleSvc f
@@ -859,6 +924,7 @@ def handle (cmd : String) (f : List String) : String × String × String :=
   else if cmd == "C17.mgrnew" then handleMgrNew f
   else if cmd == "C17.fw" then handleFW f
   else if cmd == "C17.fwblock" then handleFWBlock f
+  else if cmd == "C17.snap" then handleSnap f
   else ("unknown-cmd", "-", "-")
 
 end OracleC17
